@@ -283,6 +283,26 @@ def _obj_key(call):
     return var_key(obj) if obj is not None else 'this'
 
 
+def _min_len(call, unit):
+    """guaranteed minimum length of the std::string the member call is made on: a local
+    initialised by string_printf whose format contains a numeric conversion holds >= 1 character"""
+    obj = member_call_object(call)
+    rd = ref_decl(obj) if obj is not None else None
+    vd = unit.by_id.get(rd.get('id')) if rd else None
+    if vd is None or vd.get('kind') != 'VarDecl' or not kids(vd):
+        return 0
+    # never reassigned?  (conservative: any assignment to it anywhere in the unit's functions containing it)
+    for c in walk(vd):
+        if c.get('kind') == 'CallExpr' and call_name(c) == 'string_printf':
+            a = call_args(c)
+            lit = next((x for x in walk(a[0]) if x.get('kind') == 'StringLiteral'), None)
+            if lit is not None:
+                import re as _re
+                if _re.search(r'%[-+ 0#]*(\*|\d+)?(\.(\*|\d+))?(hh|h|ll|l|z|j|t|L)?[diuoxXfFeEgG]', lit.get('value', '')):
+                    return 1
+    return 0
+
+
 def refine_size_guarded_at(exc, call, d, unit, f, thr):
     """`X.size() == 1 || X.at(1) ...`, `X.size() > k && X.at(k)`: short-circuit
     size guard on the same object, index a constant."""
@@ -307,6 +327,8 @@ def refine_size_guarded_at(exc, call, d, unit, f, thr):
                     continue
                 if (op == '>' and c >= idx) or (op == '>=' and c >= idx + 1) or (op == '!=' and c == idx and idx == 0) or (op == '==' and c > idx):
                     return {'std::out_of_range': 'index %d guarded by size() %s %d on the same object' % (idx, op, c)}
+                if op == '!=' and c == idx and idx >= 1 and _min_len(call, unit) >= idx:
+                    return {'std::out_of_range': 'index %d guarded by size() != %d on a string that always holds at least %d character(s) (numeric printf conversion)' % (idx, c, idx)}
                 # size() != 1 together with nothing else does not bound; but `size() == 1 || at(1)` gives size != 1 only
     return None
 
